@@ -6,15 +6,15 @@ from bounded import wave_parts
 def run(tier, seed):
     res = PropertyResult('C13', 'other', '')
     try:
-        from contracts import wave_kernels_c, wave_c
+        from contracts import wave_kernels_c, wave_c, wave_comp_c
         from pyvc.verify import verify
-        res.report = verify(wave_kernels_c.targets_c13() + wave_kernels_c.targets_level() + wave_c.targets(), timeout_s=30 if tier == 'quick' else 120)
+        res.report = verify(wave_kernels_c.targets_c13() + wave_kernels_c.targets_level() + wave_c.targets() + wave_comp_c.targets_c13(), timeout_s=30 if tier == 'quick' else 120)
     except ImportError:
         res.report = None
     res.explanation = ('Tier P (unbounded, from the current source): wave_capture_cpu and wave_capture_gpu are proved against folds over the waveform (initial value, earliest / latest '
                        'finite entry, parity = final value, value captured at T = parity of the entries strictly before T, overflow marker), for sd = 0; _wave_eval returns '
                        'nfall = floor(n/2) and nrise = ceil(n/2) - [first entry is TMIN] (Q4) and propagates the overflow marker as max of the operand terminators (Q6); '
-                       'level_eval_cpu (two nested loops, ghost recurrence ACC) and one thread of wave_eval_gpu add nrise*wr + nfall*wf to abuf[a_loc, sim] and evaluate every (op, sim) pair of the range exactly once (ghost call counter), checked against the contract of _wave_eval at the call site. Tier B (bounded): the same on real runs incl. '
+                       'level_eval_cpu (two nested loops, ghost recurrence ACC) and one thread of wave_eval_gpu add nrise*wr + nfall*wf to abuf[a_loc, sim] and evaluate every (op, sim) pair of the range exactly once (ghost call counter), checked against the contract of _wave_eval at the call site; WaveSim.c_to_s (two nested loops, numpy gathers modelled as element functions) stores in rows 3..10 of every output / state-element row of s, in every lane, the eight results of wave_capture_cpu applied to that port\'s own output-slot region (callee by contract), rows 0..2 untouched. Tier B (bounded): the same on real runs incl. '
                        '"indicator clear => waveform identical to unlimited capacity" (relational in the capacity) and the a_ctrl plumbing through SimOps.')
     res.bounded = [wave_parts.part_c13(tier, seed)]
     res.assumptions = ['sd = 0 (the erf branch of the capture is outside the modelled subset)', 'extended-real model of float32 time stamps (A-float); integers mathematical',
